@@ -129,11 +129,17 @@ def r10_1(rep: Report) -> None:
         if isinstance(arg, ast.Name):
             ds = [a_ for a_ in ast.walk(lp) if isinstance(a_, ast.Assign) and norm(a_.targets[0]) == arg.id]
             src = ds[0].value if len(ds) == 1 else None
-        if src is None or not re.fullmatch(rf'{loopvar}\.moov\(\w+\.default_kid\)', norm(src)):
+        src_text = norm(src) if src is not None else ''
+        if isinstance(src, ast.Call) and isinstance(src.func, ast.Name):
+            # the hook kept in a local first: create_pssh = drm.moov
+            fd = [a_.value for a_ in ast.walk(lp) if isinstance(a_, ast.Assign) and norm(a_.targets[0]) == src.func.id]
+            if len(fd) == 1:
+                src_text = norm(fd[0]) + src_text[len(src.func.id):]
+        if src is None or not re.fullmatch(rf'{loopvar}\.moov\([\w.]+\.default_kid\)', src_text):
             return False, f'the appended child is not `{loopvar}.moov(<representation>.default_kid)`'
         for x in states:
             ats = atoms_of(x[0])
-            encs = [t for t in ats if re.fullmatch(r'\w+\.encrypted', t)]
+            encs = [t for t in ats if re.fullmatch(r'[\w.]+\.encrypted', t)]
             if not encs or pc_entails(x[0], ('atom', encs[0])) is not True:
                 return False, 'a path to the append does not imply the encryption test of the representation'
             if pc_entails(x[0], ('not', ('atom', f'{loopvar}.moov is None'))) is not True:
@@ -204,7 +210,7 @@ def r10_1(rep: Report) -> None:
         if not isinstance(st, (ast.If, ast.While, ast.For, ast.With, ast.Try)) \
                 and any(c_ is enc[0] for c_ in ast.walk(st)):
             encode_states.extend(states)
-    Flow(Disjunctive(PathCond(gen=gen), cap=512), on_stmt=on_stmt2).run(fn, [PathCond.initial()])
+    Flow(Disjunctive(PathCond(gen=gen, attr_alias=True), cap=512), on_stmt=on_stmt2).run(fn, [PathCond.initial()])
     # in live mode the mehd box is removed on every path to the encoder
     if 'mehd' in seen and live_atoms:
         la = sorted(live_atoms)[0]
